@@ -488,6 +488,22 @@ for fields in [[Field(None, "String")], [Field(None, "String"), Field(None, "Opt
     for mode in ["parser", "options"]:
         emit_struct(n, fields, mode, tuple_struct=True)
         n += 1
+# a type-level default with its rendering in the help: doc comment -> group_help sits directly on
+# the constructed value, the type-level fallback chain comes after it
+for shown in ["display_fallback", "debug_fallback"]:
+    it = Item()
+    ty = "Tfb%d" % n
+    it.derive_src = ('/// window size\n#[derive(Debug, Clone, PartialEq, Bpaf)]\n#[bpaf(fallback(%s { width: 80, height: 25 }), %s, generate(d%d))]\n'
+                     'pub struct %s {\n    /// columns\n    width: u32,\n    /// rows\n    height: u32,\n}\n'
+                     'impl std::fmt::Display for %s {\n    fn fmt(&self, f: &mut std::fmt::Formatter) -> std::fmt::Result {\n        write!(f, "{}x{}", self.width, self.height)\n    }\n}\n') % (ty, shown, n, ty, ty)
+    it.manual_src = ('pub fn m%d() -> impl Parser<%s> {\n    let width = long("width").help("columns").argument::<u32>("ARG");\n    let height = long("height").help("rows").argument::<u32>("ARG");\n'
+                     '    construct!(%s { width, height }).group_help("window size").fallback(%s { width: 80, height: 25 }).%s()\n}\n') % (n, ty, ty, ty, shown)
+    it.kind = "parser"
+    it.descr = "struct parser with doc comment and type-level fallback + %s" % shown
+    it.alphabet = ["v", "7", "--zz", "--width=7", "--width=x", "--height=7", "--width", "--height"]
+    it.paths = [[]]
+    items.append(it)
+    n += 1
 # enums: all ordered pairs of variant kinds, some triples
 vk = variant_kinds()
 for a, b in itertools.product(range(len(vk)), repeat=2):
